@@ -9,11 +9,11 @@ PROPS["C02"] = dict(
                "(accepted or refused), after which sizes and regions must still agree; a libtins exception from serialize() is accepted only for a packet the wire format cannot express (own arithmetic).",
     level_note="Trusted: the 40-line hook receiver; header_size()/trailer_size() as the definition of a layer's own regions (as in the property). IP as root with source 0.0.0.0 is skipped "
                "(serialize consults the OS routing table). PPI/PKTAP roots must refuse with pdu_not_serializable.",
-    phases=[dict(name="parsed", harness="c02.cpp", flavor="asan", mode="parsed", cases=dict(quick=14000, thorough=600000)),
-            dict(name="built", harness="c02.cpp", flavor="asan", mode="built", cases=dict(quick=60000, thorough=3000000)),
+    phases=[dict(name="parsed", harness="c02.cpp", flavor="asan", mode="parsed", cases=dict(quick=14000, thorough=150000)),
+            dict(name="built", harness="c02.cpp", flavor="asan", mode="built", cases=dict(quick=60000, thorough=600000)),
             dict(name="options", harness="c02.cpp", flavor="asan", mode="options", cases=dict(quick=256 * 15 * 7 * 2, thorough=256 * 15 * 7 * 2)),
-            dict(name="limits", harness="c02.cpp", flavor="asan", mode="limits", cases=dict(quick=900, thorough=18000)),
-            dict(name="elements", harness="c02.cpp", flavor="asan", mode="elements", cases=dict(quick=12000, thorough=240000))],
+            dict(name="limits", harness="c02.cpp", flavor="asan", mode="limits", cases=dict(quick=900, thorough=9000)),
+            dict(name="elements", harness="c02.cpp", flavor="asan", mode="elements", cases=dict(quick=12000, thorough=120000))],
     rule="case = parsed input (entry point x seed/truncation/mutation/generated) | API program (+ up to 3 edit rounds, re-serialized after each) | (class, option code 0..255, data length, payload y/n); "
          "distinct = distinct (layer chain, size, first 64 serialized bytes)",
     floors=dict(any={"distinct": 20000, "hook_layer_serializations": 500000, "packets_checked": 100000, "serializations_after_edit": 10000,
